@@ -24,9 +24,12 @@ def decodeSamples (s : String) (viaCli : Bool) : Option (List (String × Pop)) :
     let body := (s.drop 2).toString
     if !viaCli then
       some ((parseItems body).map (fun kv => (kv.1, match kv.2 with | some p => Pop.named p | none => Pop.unnamed)))
-    else if s.startsWith "S:" || s.startsWith "F:" then
-      -- the harness writes one line per item: `name\tpop\n` / `name\n`
+    else if s.startsWith "S:" || s.startsWith "F:" || s.startsWith "R:" || s.startsWith "Q:" then
+      -- the harness writes one line per item: `name\tpop\n` / `name\n`; `R:` with CR LF line endings, `Q:` CR LF between the lines
+      -- and nothing after the last one
       let content := String.join ((parseItems body).map (fun kv => match kv.2 with | some p => kv.1 ++ "\t" ++ p ++ "\n" | none => kv.1 ++ "\n"))
+      let content := if s.startsWith "R:" || s.startsWith "Q:" then content.replace "\n" "\r\n" else content
+      let content := if s.startsWith "Q:" && content.endsWith "\r\n" then (content.dropEnd 2).toString else content
       some (parseSamplesFile content.toList)
     else some (parseSamplesArg body.toList)
 
